@@ -95,7 +95,7 @@ PROPS["C05"] = dict(
 LEVEL_TEXT["C05"] = "Explicit-state model checking of the real BitFieldVec<W> against Vec<W> for every word type and a boundary set of widths (all widths for u8/u16 in thorough): every history up to the depth bound is executed on the implementation and all observations are compared in every reached state."
 TECHNIQUE["C05"] = "explicit-state BFS over operation histories executed on the real object per (word type, bit width), observational equivalence with a reference model in every state"
 
-RS_RULE = "case = (structure stack with parameters, shaped bit vector, tail state); vectors: every length 0..=L x {zeros, ones, alternating, single one / single zero at first/mid/last}, concatenations of <= K segments (kind in zeros/ones/alternating/one-every-7/64/65/512, length in word/block/sub-block boundaries +-1), gap families at the U16/U32 span switch (0xFFFF, 0x10000, 0x10001), sparse vectors of 32768/65536 +- delta bits with <= 3 ones (Select9 span classes, word count mod 4), dense prefixes followed by a very sparse tail (inventory entries with 16/32/64-bit subinventories not starting at 0), their inverses and mirror images, uniformly sparse vectors (one every 2049/4096/8191/70000 bits, 40-300 ones: 32-bit spans, spilling subinventories) with and without a dense block in the middle, vectors with ones at floor(i*g)+offset for average gaps g at the span-class boundaries of Select9 (7.5, 7.75, 8, 63.5, 63.75, 64, 127.5, 127.75, 128, 255.5, 255.75, 256) and of the adaptive selectors (15.5, 16, 16.5, 2047, 2048) with three offsets and inverses, inventory-quantum multiples with ragged tails; tail states fresh / popped / truncated (resize down from +70 ones) / two spare zero words / produced by the whole-vector writers (complement then par_flip; fill, flip and sets); for the rank structures alone also two garbage words after a clean last word (Rank9 documents that the content of an extra word is irrelevant; the selection structures scan the whole backing slice by design, which puts such storage outside C02); a case is non-trivial when the vector has at least one one and one zero"
+RS_RULE = "case = (structure stack with parameters, shaped bit vector, tail state); stacks include seven whose backend was replaced with map() after construction; vectors: every length 0..=L x {zeros, ones, alternating, single one / single zero at first/mid/last}, concatenations of <= K segments (kind in zeros/ones/alternating/one-every-7/64/65/512, length in word/block/sub-block boundaries +-1), gap families at the U16/U32 span switch (0xFFFF, 0x10000, 0x10001), sparse vectors of 32768/65536 +- delta bits with <= 3 ones (Select9 span classes, word count mod 4), dense prefixes followed by a very sparse tail (inventory entries with 16/32/64-bit subinventories not starting at 0), their inverses and mirror images, uniformly sparse vectors (one every 2049/4096/8191/70000 bits, 40-300 ones: 32-bit spans, spilling subinventories) with and without a dense block in the middle, vectors with ones at floor(i*g)+offset for average gaps g at the span-class boundaries of Select9 (7.5, 7.75, 8, 63.5, 63.75, 64, 127.5, 127.75, 128, 255.5, 255.75, 256) and of the adaptive selectors (15.5, 16, 16.5, 2047, 2048) with three offsets and inverses, inventory-quantum multiples with ragged tails; tail states fresh / popped / truncated (resize down from +70 ones) / two spare zero words / produced by the whole-vector writers (complement then par_flip; fill, flip and sets); for the rank structures alone also two garbage words after a clean last word (Rank9 documents that the content of an extra word is irrelevant; the selection structures scan the whole backing slice by design, which puts such storage outside C02); a case is non-trivial when the vector has at least one one and one zero"
 PROPS["C01"] = dict(
     level="exploration",
     engine="E1",
@@ -208,7 +208,7 @@ PROPS["C07"] = dict(
     traces_from_counter=True,
     parts=[dict(bin="e1_vfunc", opts={"prop": "C07", "traces": 1}, timeout_s={"quick": 900, "thorough": 14400}),
            dict(bin="e5_proto", shards=4)],
-    rule="E1: case = (type-level configuration, n, run-time configuration): EVERY n in 0..=N with the default configuration; every n in 0..=N1 x every single-axis run-time deviation (offline, low_mem true/false, threads 1/2/3, eps 0.01/0.1, log2_buckets 0/4, seeds 1..3, hint absent/half/2n+7/400000/800000/0, values all-zero/all-MAX/identity, check_dups); EVERY value width 1..=64 (usize; u16 and u8 up to their width) at n in {1,100,1000}; every key is also read through get_unaligned where the backend has it and the width admits it; builds whose FIRST attempt fails by construction (a harness key type decides the signatures: chosen pairs of keys collide under the first seed asked for and under no later one) for 5 shard/edge x signature combinations x n in {2,3,10,1000,100001,150000} (thorough 800001, 10^6) x 1 or 3 colliding pairs x 6 run-time configurations: the retry must yield a correct structure; all pairs of 14 run-time deviations at n in {0,1,2,3,10,99,100,101(,1000)}; 16 type-level configurations (key types usize/u64/str/String, Box<[u8|u16|u32|u64|usize]>, BitFieldVec<u8|u16|u64|usize>, [u64;1]/[u64;2] x FuseLge3NoShards, FuseLge3FullSigs, Mwhc3Shards, Mwhc3NoShards) for every n in 0..=N2; regime boundaries 50000, 99999..100001, 150000 (2 shards; thorough up to 800001), and 10 000 001 keys (thorough: 5, 10, 20, 45 and 85 million: the expansion factor changes at 5/10/20 million, sharding resumes, the default peeler changes). builds whose first attempt fails by duplicate signature / unsolvable shard (or succeeds) re-run once per protocol event index (0..48, thorough 0..150) with the thread raising that event held for 25 ms - a one-delay sweep of the schedules of the real solver threads, every event log replayed through the model; E5: all reachable states of the par_solve model for workers in 1..=3, shards in 1..=4, every per-shard outcome assignment in {ok, duplicate, unsolvable} (+ empty when shards = 1). non-trivial = n >= 2",
+    rule="E1: case = (type-level configuration, n, run-time configuration): EVERY n in 0..=N with the default configuration; every n in 0..=N1 x every single-axis run-time deviation (offline, low_mem true/false, threads 1/2/3, eps 0.01/0.1, log2_buckets 0/4, seeds 1..3, hint absent/half/2n+7/400000/800000/0, values all-zero/all-MAX/identity, check_dups); EVERY value width 1..=64 (usize; u16 and u8 up to their width) at n in {1,100,1000}; every key is also read through get_unaligned where the backend has it and the width admits it; functions (C08: filters) over 1000 keys of every key type the crate hashes (12 integer types, String, &str, &String, slices of the 12 integer types; keys differing only in their last element / low bytes / high bytes) x both signature widths; builds whose FIRST attempt fails by construction (a harness key type decides the signatures: chosen pairs of keys collide under the first seed asked for and under no later one) for 5 shard/edge x signature combinations x n in {2,3,10,1000,100001,150000} (thorough 800001, 10^6) x 1 or 3 colliding pairs x 6 run-time configurations: the retry must yield a correct structure; all pairs of 14 run-time deviations at n in {0,1,2,3,10,99,100,101(,1000)}; 16 type-level configurations (key types usize/u64/str/String, Box<[u8|u16|u32|u64|usize]>, BitFieldVec<u8|u16|u64|usize>, [u64;1]/[u64;2] x FuseLge3NoShards, FuseLge3FullSigs, Mwhc3Shards, Mwhc3NoShards) for every n in 0..=N2; regime boundaries 50000, 99999..100001, 150000 (2 shards; thorough up to 800001), and 10 000 001 keys (thorough: 5, 10, 20, 45 and 85 million: the expansion factor changes at 5/10/20 million, sharding resumes, the default peeler changes). builds whose first attempt fails by duplicate signature / unsolvable shard (or succeeds) re-run once per protocol event index (0..48, thorough 0..150) with the thread raising that event held for 25 ms - a one-delay sweep of the schedules of the real solver threads, every event log replayed through the model; E5: all reachable states of the par_solve model for workers in 1..=3, shards in 1..=4, every per-shard outcome assignment in {ok, duplicate, unsolvable} (+ empty when shards = 1). non-trivial = n >= 2",
     alphabet="see rule",
     bound={"quick": "N=400, N1=160, N2=130", "thorough": "N=6000, N1=1500, N2=600, sizes to 85 000 000"},
     oracle="E1: Ok(f), f.len() == n, f.get(k_i) == v_i for every pair; termination under a 120 s per-case watchdog; E5: no deadlock, every terminal state consistent (Ok => every shard solved exactly once or empty; a failing shard => Err); binding: every real par_solve event log (thousands per run, including the unsolvable-shard retry path, which small key sets take very often) must be accepted by the model (tau-closure subset construction)",
